@@ -52,6 +52,9 @@ Definition acc_rtypes : list (string * rtype) :=
    ("Connect.Will"%string, ROther);
    ("Connect.WillDelayInterval"%string, RUint);
    ("Disconnect.ReasonCode"%string, RReason);
+   ("Disconnect.ReasonString"%string, RString);
+   ("Disconnect.ServerReference"%string, RString);
+   ("Disconnect.SessionExpiryInterval"%string, RUint);
    ("PubAck.PacketID"%string, RUint);
    ("PubAck.ReasonCode"%string, RReason);
    ("PubAck.ReasonString"%string, RString);
